@@ -67,8 +67,8 @@ def canonicalize (I : Idna) (p : Profile) (H : Heap) (i : Nat) : Heap × Ret :=
       | (H', none) => (H', .url)
     else (H, .url)
   let s4 : Heap → Heap × Ret := fun H =>
-    if p.repeatedPercentDecoding && hash (getU H) != [] then
-      H.set I i .hash (decodeEncode hostSet (trimPrefix1 (hash (getU H)) [0x23]))
+    if p.repeatedPercentDecoding && hashG (getU H) != [] then
+      H.set I i .hash (decodeEncode hostSet (trimPrefix1 (hashG (getU H)) [0x23]))
     else (H, .url)
   let s5 : Heap → Heap × Ret := fun H => if p.removePort then H.set I i .port [] else (H, .url)
   let s6 : Heap → Heap × Ret := fun H =>
